@@ -11,11 +11,11 @@ git -C /repo worktree add -q --detach "$WT" HEAD || exit 2
 cleanup() { git -C /repo worktree remove --force "$WT" 2>/dev/null; rm -rf "$WT" /tmp/wt/bin_$$; }
 trap cleanup EXIT
 mkdir -p /tmp/wt/bin_$$/base /tmp/wt/bin_$$/mut
-(cd "$WT" && go build -o /tmp/wt/bin_$$/base/ti . ) || { echo "BASE BUILD FAILED"; exit 2; }
+(cd "$WT" && go build -o /tmp/wt/bin_$$/base/ti . && go build -o /tmp/wt/bin_$$/base/ti-rbs2json ./cmd/rbs2json && go build -o /tmp/wt/bin_$$/base/ti-c2json ./cmd/c2json ) || { echo "BASE BUILD FAILED"; exit 2; }
 if ! git -C "$WT" apply "$M/patch.diff" 2>/tmp/wt/apply_$$.err; then
   if ! git -C "$WT" apply -3 "$M/patch.diff" 2>>/tmp/wt/apply_$$.err; then echo "PATCH DOES NOT APPLY"; cat /tmp/wt/apply_$$.err | head -5; exit 3; fi
 fi
-(cd "$WT" && go build ./... && go build -o /tmp/wt/bin_$$/mut/ti . ) || { echo "MUTANT BUILD FAILED"; exit 3; }
+(cd "$WT" && go build ./... && go build -o /tmp/wt/bin_$$/mut/ti . && go build -o /tmp/wt/bin_$$/mut/ti-rbs2json ./cmd/rbs2json && go build -o /tmp/wt/bin_$$/mut/ti-c2json ./cmd/c2json ) || { echo "MUTANT BUILD FAILED"; exit 3; }
 echo "== golden with change:"; VERIF_REPO="$WT" /verif/bin/verif golden | tail -3
 if [ -f "$M/demo.sh" ]; then
   D=/tmp/wt/demo_$$; rm -rf $D; mkdir -p $D; cp -r /repo/test/.ti-config $D/
